@@ -80,4 +80,5 @@ def main() -> None:
     net.finish("bounded", "valid streams (both framings, option rows of length 10 and others) x {BytesIO, BufferedReader, gzip, two-member gzip, BufferedReader mid-buffer} x 11 short-read schedules on a non-seekable raw source x flat/grouped parsers",
                "each case = (source kind or schedule, byte string)")
 if __name__ == "__main__":
-    main()
+    from common import run_main
+    run_main(main, "C09")
